@@ -28,8 +28,8 @@ Big == TLCEval(BigOf(0))
 Ops == {"<", "<=", "=", "~", ">=", ">", "=*"}
 VA(o, v) == [cat |-> "c", pkg |-> "p", op |-> o, ver |-> v, slot |-> "", subslot |-> "", repo |-> "", deps |-> {}]
 VAtoms == {VA(x[1], x[2]) : x \in {y \in Ops \X VPool : y[1] = "~" => y[2].rev = <<>>}} \cup {VA("", AnyVer)}
-TabT == [x \in VAtoms |-> TLCEval({v \in Big : VerOn(x, v) = "T"})]
-TabP == [x \in VAtoms |-> TLCEval({v \in Big : VerOn(x, v) # "F"})]
+TabT == TLCEval([x \in VAtoms |-> TLCEval({v \in Big : VerOn(x, v) = "T"})])
+TabP == TLCEval([x \in VAtoms |-> TLCEval({v \in Big : VerOn(x, v) # "F"})])
 ASSUME PrintT(<<"Big", Cardinality(Big), "VAtoms", Cardinality(VAtoms)>>)
 
 \* attribute side universe
@@ -41,12 +41,12 @@ DepSets == IF Size > 1 THEN {{}} \cup {{d} : d \in DepForms} \cup {{d, e} : d \i
                 \cup {{d, e} : d \in {q \in XF : q.dflt = "-"}, e \in {q \in YF : q.dflt = ""}}
 SlotForms == {<<"", "">>, <<"0", "">>, <<"1", "">>, <<"0", "2">>, <<"0", "3">>}
 AAtoms == {[cat |-> "c", pkg |-> "p", op |-> "", ver |-> AnyVer, slot |-> s[1], subslot |-> s[2], repo |-> r, deps |-> ds] :
-             s \in (IF Size > 1 THEN SlotForms ELSE {<<"", "">>, <<"0", "2">>}), r \in (IF Size > 1 THEN {"", "r1", "r2"} ELSE {"", "r1"}), ds \in DepSets}
+             s \in (IF Size > 1 THEN {<<"", "">>, <<"1", "">>, <<"0", "2">>, <<"0", "3">>} ELSE {<<"", "">>, <<"0", "2">>}), r \in (IF Size > 1 THEN {"", "r1", "r2"} ELSE {"", "r1"}), ds \in DepSets}
 APkgs == {[cat |-> "c", pkg |-> "p", ver |-> AnyVer, slot |-> s, subslot |-> ss, repo |-> r, iuse |-> iu, use |-> u] :
             s \in {"0", "1"}, ss \in {"2", "3"}, r \in {"r1", "r2"}, iu \in SUBSET {"x", "y"}, u \in SUBSET {"x", "y"}}
 OkPkgs == TLCEval({p \in APkgs : p.use \subseteq p.iuse})
-ATabT == [x \in AAtoms |-> TLCEval({p \in OkPkgs : Matches(x, p) = "T"})]
-ATabP == [x \in AAtoms |-> TLCEval({p \in OkPkgs : Matches(x, p) # "F"})]
+ATabT == TLCEval([x \in AAtoms |-> TLCEval({p \in OkPkgs : Matches(x, p) = "T"})])
+ATabP == TLCEval([x \in AAtoms |-> TLCEval({p \in OkPkgs : Matches(x, p) # "F"})])
 
 VARIABLES a, b, ph
 vars == <<a, b, ph>>
